@@ -505,3 +505,106 @@ def triggered_by_ids(ctx, rule):
                'wrong / too few upstream tasks', ctx.loc(f))
     t.undecided(rule, 'whether triggers were recorded')
     return 2
+
+
+def upstream_query_choice(ctx, rule):
+    """DirectWorkflowController._get_upstream_task_executions: which query
+    selects the tasks a task takes its data from.  No inbound tasks: none.
+    A join: every completed inbound task that routed to it.  Otherwise the
+    tasks recorded as its triggers (by id) and, only when nothing was
+    recorded, the processed executions of its single inbound task."""
+    prog = ctx.prog
+    f = prog.func('mistral.workflow.direct_workflow.DirectWorkflowController.'
+                  '_get_upstream_task_executions')
+    names = [x.targets[0].id for x in own_nodes(f.node)
+             if isinstance(x, ast.Assign) and
+             isinstance(x.targets[0], ast.Name) and
+             'find_inbound_task_specs' in norm(x.value, 300)]
+    if len(names) != 1:
+        raise AnalysisError('upstream query: inbound names not found')
+    nm = names[0]
+    spec, trig = f.params[1], f.params[2]
+    J = '%s.get_join()' % spec
+    t = dt.Table(ctx, f, [(nm, ((), ('a',))), (J, (None, 'all')),
+                          (trig, (None, (), ('id',)))],
+                 inline_exclude=(nm,))
+    qs = [(n, c) for n, c in t.cfg.calls(
+        lambda c: U.call_name(c) == '_get_task_executions')]
+    by_kind = {'ids': [], 'single': [], 'join': []}
+    for n, c in qs:
+        kw = {k.arg: k.value for k in c.keywords}
+        if 'id' in kw:
+            okid = U.phas(kw['id'], "{'in': %s}" % trig)
+            by_kind['ids' if okid else 'single'].append(n)
+            rule.check(okid, ctx.construct(f, c, extra='ids of the triggers'),
+                       'the id filter is not the recorded trigger ids',
+                       ctx.loc(f, c))
+        elif isinstance(kw.get('name'), ast.Dict):
+            by_kind['join'].append(n)
+        else:
+            by_kind['single'].append(n)
+    if not all(by_kind.values()):
+        raise AnalysisError('upstream query: the three queries were not '
+                            'found (%s)' % {k: len(v)
+                                            for k, v in by_kind.items()})
+
+    def reach(kind):
+        out = set()
+        for n in by_kind[kind]:
+            out |= t.inputs_at(n)
+        return out
+    want = {
+        'ids': lambda d: d[nm] and not d[J] and bool(d[trig]),
+        'single': lambda d: d[nm] and not d[J] and not d[trig],
+        'join': lambda d: d[nm] and bool(d[J]),
+    }
+    for kind in ('ids', 'single', 'join'):
+        exp = {v for v in t.init_inputs
+               if want[kind](dict(zip(t.keys, v)))}
+        got = reach(kind)
+        rule.check(got == exp,
+                   ctx.construct(f, extra='query by %s' % kind),
+                   'the upstream query "%s" is used in other situations than '
+                   'the property prescribes (e.g. %s)' % (
+                       kind, dict(zip(t.keys, sorted(got ^ exp, key=repr)[0]))
+                       if got != exp else ''), ctx.loc(f))
+    t.undecided(rule, 'the inbound tasks, the join flag and the recorded '
+                'triggers')
+    # of the candidates of a join, exactly those that routed to it
+    cfg = t.cfg
+    keep = [(n, c) for n, c in cfg.calls(
+        lambda c: U.call_name(c) == 'append')]
+    comps = [x for x in own_nodes(f.node) if isinstance(x, ast.ListComp) and
+             any('next_tasks' in norm(i, 200) for g in x.generators
+                 for i in g.ifs)]
+    def routed_test(e):
+        """`<spec>.get_name() in [t[0] for t in <x>.next_tasks]`"""
+        if not (isinstance(e, ast.Compare) and len(e.ops) == 1 and
+                isinstance(e.ops[0], ast.In) and
+                norm(e.left) == '%s.get_name()' % spec):
+            return False
+        lc = e.comparators[0]
+        if not (isinstance(lc, (ast.ListComp, ast.SetComp,
+                                ast.GeneratorExp)) and
+                len(lc.generators) == 1 and not lc.generators[0].ifs):
+            return False
+        g = lc.generators[0]
+        return isinstance(g.target, ast.Name) and \
+            norm(lc.elt) == '%s[0]' % g.target.id and \
+            isinstance(g.iter, ast.Attribute) and g.iter.attr == 'next_tasks'
+    okk = False
+    for n, c in keep:
+        # (the function-level facts - inbound tasks exist, this is a join -
+        # are decided by the table above)
+        atoms = [(a, tr) for a, tr in U.guard_atoms(cfg, n)
+                 if norm(a) not in (nm, J)]
+        okk = okk or (len(atoms) == 1 and atoms[0][1] is True and
+                      routed_test(atoms[0][0]))
+    for lc in comps:
+        okk = okk or (len(lc.generators) == 1 and
+                      len(lc.generators[0].ifs) == 1 and
+                      routed_test(lc.generators[0].ifs[0]))
+    rule.check(okk, ctx.construct(f, extra='candidates that routed here'),
+               'the completed inbound tasks of a join are not filtered by '
+               'exactly "this task is among their next tasks"', ctx.loc(f))
+    return 5
